@@ -1,5 +1,5 @@
 import RlModel.Model.PlanWf
-/-! C17 model driver: `wf <plan s-expression>` → `<verdict> | schema=<n>` -/
+/-! C17 model driver: `wf <plan s-expression>` → `<verdict> | schema=<n> | aggrefs=<true|false>` -/
 open RlModel RlModel.Wf
 
 def answer (line : String) : String :=
@@ -8,7 +8,7 @@ def answer (line : String) : String :=
     match Sexp.parse (l.drop 3).toString with
     | some s =>
       let t := ofSexp s
-      showVerdict (verdict t) ++ " | schema=" ++ toString (schema t).length
+      showVerdict (verdict t) ++ " | schema=" ++ toString (schema t).length ++ " | aggrefs=" ++ toString (aggRefsProduced t)
     | none => "bad-plan"
   else "bad-request"
 
